@@ -1,16 +1,19 @@
 #!/bin/sh
 # tools/confirm_seeded.sh <worktree> <prop> <name>: confirm an agent-written change myself and archive it under /verif/seeded/<name>/
+# (pinned suite with the change; the demonstration with and without the change - switched with git apply -R / git apply, never
+# git stash, which is shared between the worktrees of one repository)
 WT=$1; PROP=$2; NAME=$3
 OUT=/verif/seeded/$NAME
 mkdir -p $OUT
 cd $WT || exit 1
 git diff -- src > $OUT/patch.diff
+test -s $OUT/patch.diff || { echo "$NAME: empty diff"; exit 1; }
 cp MUTANT/demo.py $OUT/demo.py
 T=$(PYTHONPATH=$WT/src /venv/bin/python -m pytest -q -p no:cacheprovider -n 16 --timeout=900 --continue-on-collection-errors 2>&1 | tail -1)
-PYTHONPATH=$WT/src /venv/bin/python MUTANT/demo.py > $OUT/demo_with_change.txt 2>&1; D1=$?
-git stash -q
-PYTHONPATH=$WT/src /venv/bin/python MUTANT/demo.py > /dev/null 2>&1; D0=$?
-git stash pop -q
+PYTHONPATH=$WT/src PYTHONDONTWRITEBYTECODE=1 /venv/bin/python MUTANT/demo.py > $OUT/demo_with_change.txt 2>&1; D1=$?
+git apply -R $OUT/patch.diff || exit 1
+PYTHONPATH=$WT/src PYTHONDONTWRITEBYTECODE=1 /venv/bin/python MUTANT/demo.py > /dev/null 2>&1; D0=$?
+git apply $OUT/patch.diff || exit 1
 echo "$NAME tests: $T ; demo with change exit=$D1 ; demo without exit=$D0"
 cp MUTANT/meta.json $OUT/agent_meta.json
 echo "$T|$D1|$D0" > $OUT/.confirm
